@@ -36,6 +36,10 @@ def handlePsf (op : String) (args : List String) : Option String :=
       let x ← parseRat? x; let y ← parseRat? y
       let (a, b, c, d) := Model.Psf.bilinearWeights x0 x1 y0 y1 x y
       some s!"ok {showRat a} {showRat b} {showRat c} {showRat d}"
+  | "psf.origin", [[ny, nx]] => do
+      -- default origins (x, y) of GriddedPSFModel and of ImagePSF(origin=None) for ePSF arrays of ny x nx samples
+      let ny ← parseNat? ny; let nx ← parseNat? nx
+      some s!"ok {showRat (Model.Psf.griddedOrigin nx)} {showRat (Model.Psf.griddedOrigin ny)} {showRat (Model.Psf.imageOrigin nx)} {showRat (Model.Psf.imageOrigin ny)}"
   | "psf.coord", [[os, origin, x, x0, n]] => do
       let os ← parseRat? os; let origin ← parseRat? origin; let x ← parseRat? x; let x0 ← parseRat? x0
       let n ← parseNat? n
